@@ -100,6 +100,51 @@ def _run(seg_ids, mode, hits):
     return ""
 
 
+def builtin_logger(s1: int, s2: int, lit: int) -> str:
+    """
+    The BUILT-IN tracepoint logger (PythonPlugin) emits the message, whatever characters it contains (a literal '%', a
+    field value containing '%s'), labelled with the tracepoint id and the context id.
+    PRE: 0 <= s1 <= 11 and 0 <= s2 <= 11 and 0 <= lit <= 3
+    POST: _ == ""
+    """
+    world.begin_path()
+    import deep.api.plugin.python as pp
+    from deep.api.plugin.python import PythonPlugin
+    from deep.api.tracepoint.trigger import build_trigger
+    s1, s2, lit = world.realize(s1), world.realize(s2), world.realize(lit)
+    extra = ["", " 75%", " %s done", " %(x)s %d"][lit]
+    emitted = []
+
+    class Rec:
+        @staticmethod
+        def info(msg, *args, **kwargs):
+            try:
+                emitted.append(msg % args if args else msg)
+            except Exception as e:            # what python's logging does with a bad format: the record is lost
+                emitted.append("<<lost: %s>>" % type(e).__name__)
+    real = pp.logging
+    pp.logging = Rec
+    try:
+        w = World(plugin_list=[PythonPlugin(config=None)])
+        template = SEGS[s1] + SEGS[s2] + extra
+        loc = _locals()
+        loc["name"] = "bob%s" if lit == 2 else "bob"
+        w.install([build_trigger("tp1", "f.py", 7, {"fire_count": "-1", "fire_period": "0", "snapshot": "no_collect", "log_msg": template}, [], [])])
+        w.event(FakeFrame("/app/f.py", "f", 7, loc), "line", None)
+    finally:
+        pp.logging = real
+    world.reached()
+    rendered, _ = _ref_render([s1, s2], loc)
+    want = rendered + extra
+    if len(emitted) != 1:
+        return "C16:builtin-logger:message-count"
+    if want not in emitted[0]:
+        return "C16:builtin-logger:message-lost-or-garbled"
+    if "tp1" not in emitted[0] or "ctx-1" not in emitted[0]:
+        return "C16:builtin-logger:labels-missing"
+    return ""
+
+
 def render3(s1: int, s2: int, s3: int, n: int, mode: int, hits: int) -> str:
     """
     Templates of up to three segments (literal / doubled brace / field) on a log-only or snapshot+log tracepoint.
@@ -164,6 +209,8 @@ MUTANTS = {"prefix_dropped": _mut_prefix_dropped, "swapped_ids": _mut_swapped_id
 _Q3 = ["n == 3 and hits == 1 and s1 == %d and mode == %d and s3 in (1, 3, 4, 5, 10)" % (a, m) for a in (3, 4, 5, 10) for m in range(2)]
 _LE2 = ["n <= 2 and mode == %d and hits == %d and s1 == %d" % (m, h, a) for m in range(2) for h in (1, 3) for a in range(12)]
 CONDITIONS = [
+    dict(fn="builtin_logger", cubes=["lit == %d and s1 %s" % (l, r) for l in range(4) for r in ("<= 5", ">= 6")], twins=["reach"],
+         bounds="the real PythonPlugin.log_tracepoint (its logging call captured): 12x12 two-segment templates x 4 literal tails containing '%' forms; a field value containing '%s'"),
     dict(fn="render3", cubes={"quick": _LE2 + _Q3,
                               "thorough": _LE2 + ["n == 3 and hits == %d and s1 == %d and s2 == %d and mode == %d" % (h, a, b, m)
                                                   for a in range(12) for b in range(12) for m in range(2) for h in (1,)]},
